@@ -81,6 +81,19 @@ pub fn initialize_params(diagnostics: bool) -> Value {
     }
 }
 
+/// the same announcement in the other shapes a client may send: support is announced exactly
+/// when `capabilities.textDocument.publishDiagnostics` is present, whatever else is announced
+pub fn initialize_params_variant(diagnostics: bool, variant: usize) -> Value {
+    match (diagnostics, variant % 3) {
+        (true, 0) => initialize_params(true),
+        (true, 1) => json!({ "capabilities": { "workspace": {}, "textDocument": { "hover": { "contentFormat": ["markdown"] }, "publishDiagnostics": { "relatedInformation": true } } } }),
+        (true, _) => json!({ "processId": null, "rootUri": null, "capabilities": { "textDocument": { "publishDiagnostics": { "versionSupport": false }, "completion": {} } } }),
+        (false, 0) => initialize_params(false),
+        (false, 1) => json!({ "capabilities": { "textDocument": { "hover": { "contentFormat": ["markdown"] }, "completion": {} } } }),
+        (false, _) => json!({ "processId": null, "rootUri": null, "capabilities": { "workspace": {}, "textDocument": {} } }),
+    }
+}
+
 /// strict parse of the server's output into frames
 pub fn parse_frames(out: &[u8]) -> (Vec<Frame>, Option<String>) {
     let mut frames = Vec::new();
